@@ -99,6 +99,8 @@ def _pair(w, llgo, tag, src):
     if rc != 0:
         core.broken("reference toolchain rejects the C01 probe program:\n" + (so + se)[-1500:])
     rc, so, se = core.llgo_build(w, llgo, d, o2)
+    if rc == -999:
+        return None, None, "WATCHDOG"
     if rc != 0:
         return None, None, so + se
     a = core.run_prog([o1], timeout=60)
@@ -123,6 +125,10 @@ def run(chk, w, llgo, Obs, compare):
     for sel in todo:
         fid = sel[0]
         a, b, log = _pair(w, llgo, fid, source(sel))
+        if b is None and log == "WATCHDOG":
+            report[fid] = "inconclusive"
+            chk.inconclusive += 1
+            continue
         if b is None:
             report[fid] = "llgo-build-failure"
             _verdict(chk, fid, "(builds)", "llgo build failure:\n" + log[-1200:], source(sel))
